@@ -483,11 +483,15 @@ def prodstring(r, constants):
     if num: return num
     if den: return "1/(%s)" % den
 
-def quadraticstring(ctx,t,a,b,c):
+def quadraticstring(ctx,t,a,b,c,tol=None):
     if c < 0:
         a,b,c = -a,-b,-c
     u1 = (-b+ctx.sqrt(b**2-4*a*c))/(2*c)
     u2 = (-b-ctx.sqrt(b**2-4*a*c))/(2*c)
+    # A small value of the quadratic does not place t near a root when
+    # the roots (nearly) coincide; such a candidate is not a match
+    if tol is not None and min(abs(u1-t), abs(u2-t)) > 2*tol:
+        return None
     if abs(u1-t) < abs(u2-t):
         if b:  s = '((%s+sqrt(%s))/%s)' % (-b,b**2-4*a*c,2*c)
         else:  s = '(sqrt(%s)/%s)' % (-4*a*c,2*c)
@@ -802,7 +806,7 @@ def identify(ctx, x, constants=[], tol=None, maxcoeff=1000, full=False,
                 if q is not None and len(q) == 3 and q[2]:
                     aa, bb, cc = q
                     if max(abs(aa),abs(bb),abs(cc)) <= M:
-                        s = quadraticstring(ctx,t,aa,bb,cc)
+                        s = quadraticstring(ctx,t,aa,bb,cc,tol)
             if s:
                 if cn == '1' and ('/$c' in ftn):
                     s = ftn.replace('$y', s).replace('/$c', '')
